@@ -3,7 +3,7 @@ from itertools import combinations
 import numpy as np
 
 try:
-    from pyparsing import Combine, Literal, Optional, Regex, Word, alphas, nums
+    from pyparsing import Regex, Word, alphas, nums
 except ImportError:
     raise ImportError(
         e.message()
@@ -87,9 +87,9 @@ class UAIReader(object):
             )
             grammar += function_grammar
 
-        floatnumber = Combine(
-            Word(nums) + Optional(Literal(".") + Optional(Word(nums)))
-        )
+        # Optional sign, digits with an optional fraction (or a bare fraction),
+        # and an optional exponent, i.e. everything that `str(float)` can produce.
+        floatnumber = Regex(r"[+-]?(\d+\.?\d*|\.\d+)([eE][+-]?\d+)?")
         for function in range(0, self.no_functions):
             no_values_grammar = Word(nums).setResultsName(
                 "fun_no_values_" + str(function)
